@@ -641,25 +641,19 @@ Definition ast_eqb (a b : dml_ast) : bool :=
 (* the text Query.rquery writes for the criterion of an UPDATE / a DELETE (the criterion is an arbitrary term; the
    with_namespace flag is the renderer's "reference to a foreign table" decision) *)
 Definition upd_wns (tbl : tref) (w : option term) : bool :=
-  match option_map IT w with
-  | Some (IT w0) =>
-      existsb (fun o : option tref => match o with
-                                      | Some tb => negb (existsb (tref_eqb (resolve_tref [] tb)) [tbl])
-                                      | None => false end) (field_tables w0)
-  | _ => false
-  end || false.
+  existsb (fun o : option tref => match o with
+                                  | Some tb => negb (existsb (tref_eqb (resolve_tref [] tb)) [tbl])
+                                  | None => false end)
+          (match option_map IT w with Some w0 => item_tables w0 | None => [] end) || false.
 Definition upd_where_res (c : cls) (tbl : tref) (w : term) : res string :=
   render (set_subq (set_wn (kc (defaults c (top_ctx c))) (upd_wns tbl (Some w))) true) (map_tref (resolve_tref []) w).
 Definition del_wns (tbl : tref) (w : option term) : bool :=
   Nat.ltb 1 (List.length [SrcT tbl]) || false ||
-  match option_map IT w with
-  | Some (IT w0) =>
-      existsb (fun o : option tref => match o with
-                                      | Some tb => negb (existsb (tref_eqb (resolve_tref [src_ref (SrcT tbl) None] tb))
-                                                                 [src_ref (SrcT tbl) None])
-                                      | None => false end) (field_tables w0)
-  | _ => false
-  end.
+  existsb (fun o : option tref => match o with
+                                  | Some tb => negb (existsb (tref_eqb (resolve_tref [src_ref (SrcT tbl) None] tb))
+                                                             [src_ref (SrcT tbl) None])
+                                  | None => false end)
+          (match option_map IT w with Some w0 => item_tables w0 | None => [] end).
 Definition del_where_res (c : cls) (tbl : tref) (w : term) : res string :=
   render (set_subq (set_wn (kc (defaults c (top_ctx c))) (del_wns tbl (Some w))) true)
          (map_tref (resolve_tref [src_ref (SrcT tbl) None]) w).
